@@ -48,16 +48,35 @@ VALUES = ['aB', 'Select', '"aB"', '`aB`', ':aB', ' "aB"', "'aB'", 'ß', 'order b
 CASES = ['upper', 'lower', 'capitalize']
 
 
-def casefilt(ti: int, vi: int, ci: int, ident: bool) -> int:
+def _exp_case(tt, v, case, ident):
+    if ident:
+        target = (tt is T.Name or tt is T.Literal.String.Symbol) and v.strip()[0] != '"'
+    else:
+        target = tt in T.Keyword
+    return getattr(str, case)(v) if target else v
+
+
+def casefilt(ti: int, vi: int, ci: int, ident: bool, t2: int) -> int:
     """
-    pre: 0 <= ti < 13 and 0 <= vi < 9 and 0 <= ci < 3
+    pre: 0 <= ti < 13 and 0 <= vi < 9 and 0 <= ci < 3 and 0 <= t2 < 13
     pre: PART < 0 or ti == PART
     post: _ != 2
     """
     tt = TYPES[conc(ti, 12)]
+    tt2 = TYPES[conc(t2, 12)]
     v = VALUES[conc(vi, 8)]
     case = CASES[conc(ci, 2)]
     flt = IdentifierCaseFilter(case) if ident else KeywordCaseFilter(case)
+    # the same spelling under ANOTHER token type later in the same stream is judged by its own type
+    s2 = [(tt, v), (T.Whitespace, ' '), (tt2, v), (tt, v)]
+    try:
+        o2 = list(flt.process(iter(s2)))
+    except Exception:
+        return 2
+    if [x[0] for x in o2] != [x[0] for x in s2]:
+        return 2
+    if [x[1] for x in o2] != [_exp_case(tt, v, case, ident), ' ', _exp_case(tt2, v, case, ident), _exp_case(tt, v, case, ident)]:
+        return 2
     stream = [(tt, v), (T.Punctuation, ','), (tt, v)]
     try:
         out = list(flt.process(iter(stream)))
@@ -159,3 +178,57 @@ def stripc(ks: List[int]) -> int:
     post: _ != 2
     """
     return 2 if stripc_why(_text(ks)) else 1
+
+
+
+# ---- strip_comments on scripts of the verification grammar, alone and combined with layout options ----
+from vf.ch import layout as _L        # noqa: E402  (grammar generator shared with C06/C10)
+
+SC_OPTS = [dict(strip_comments=True), dict(strip_comments=True, strip_whitespace=True), dict(strip_comments=True, reindent=True),
+           dict(strip_comments=True, reindent_aligned=True), dict(strip_comments=True, use_space_around_operators=True, keyword_case='upper')]
+GSUB = 0
+GSEED = 0
+
+
+def g_text(i, t, w, tl, so, ws, cm, tight):
+    q = _L.gen(i, t, w, tl, so, ws, 0)
+    sp = _L.WSV[ws]
+    c1 = ['/* c */', '/*c*/', '-- c\n'][cm]
+    # first comment right before FROM (glued to both neighbours when `tight`), second one spaced, before WHERE / at the end
+    if tight and not c1.endswith('\n'):
+        q = q.replace(sp + 'from' + sp, c1 + 'from' + sp, 1)
+    else:
+        q = q.replace(sp + 'from' + sp, sp + c1 + ('' if c1.endswith('\n') else sp) + 'from' + sp, 1)
+    if sp + 'where' + sp in q:
+        q = q.replace(sp + 'where' + sp, ' /* d */ where' + sp, 1)
+    else:
+        q += ' /* d */'
+    return q
+
+
+def g_stripc_why(text, o):
+    try:
+        out = sqlparse.format(text, **o)
+    except Exception as e:
+        return f'strip_comments:raised-{type(e).__name__}: {text!r} {o}'
+    exp = [(k, v.upper() if k == 'word' else v) for k, v in _L.sig_tokens(text) if k != 'comment' or v.startswith(('/*+', '--+'))]
+    got = [(k, v.upper() if k == 'word' else v) for k, v in _L.sig_tokens(out)]
+    if got != exp:
+        kind = 'comment-kept' if any(k == 'comment' and not v.startswith(('/*+', '--+')) for k, v in got) else 'tokens-fused-or-changed'
+        return f'strip_comments+layout:{kind}: format({text!r}, **{o}) = {out!r}'
+    return None
+
+
+def g_stripc(i: int, t: int, w: int, tl: int, so: int, ws: int, cm: int, tight: bool, oi: int) -> int:
+    """
+    pre: 0 <= i < 10 and 0 <= t < 6 and 0 <= w < 9 and 0 <= tl < 7 and 0 <= so < 4 and 0 <= ws < 4 and 0 <= cm < 3
+    pre: 0 <= oi < 5
+    pre: PART < 0 or oi == PART
+    pre: GSUB == 0 or ((i + 10 * (t + 6 * (w + 9 * (tl + 7 * (so + 4 * (ws + 4 * cm)))))) % GSUB == GSEED % GSUB)
+    post: _ != 2
+    """
+    text = g_text(conc(i, 9), conc(t, 5), conc(w, 8), conc(tl, 6), conc(so, 3), conc(ws, 3), conc(cm, 2), True if tight else False)
+    wy = g_stripc_why(text, SC_OPTS[conc(oi, 4)])
+    if wy and wy.split(': ')[0] in KNOWN:
+        return 1
+    return 2 if wy else 1
